@@ -14,7 +14,8 @@ pub fn gen(r: &mut Rng) -> Value {
     if r.chance(1, 3) {
         // lint: a few lines of every shape (label / output / command alone or combined, either case)
         let shapes = [":done", ":Done", "result =", "Result =", ":reset value =", ":Reset value =", ":reset Value =", "out = set 1", "Out = set 1", "out = Set 1",
-            ":l out = set A", "set", "Set", "# Comment Only", "", "x = set \"unterminated", "!print Hi", ":l", "o = std::Set 1", "echo Hi # Trailing Comment"];
+            ":l out = set A", "set", "Set", "# Comment Only", "", "x = set \"unterminated", "!print Hi", ":l", "o = std::Set 1", "echo Hi # Trailing Comment",
+            ":Übung", ":übung", "out = Écho hi", "out = écho hi", "Ärger = set 1", "ärger = set 1", "ǅ = set 1", "x = set É"];
         let n = 1 + r.below(3);
         let lines: Vec<String> = (0..n).map(|_| r.pick(&shapes).to_string()).collect();
         return json!({"script": lines.join("\n"), "mode": 3});
